@@ -272,3 +272,163 @@ def same_value(ctx, a, b):
     if isinstance(a, (int, np.integer)) and isinstance(b, (int, np.integer)):
         return int(a) == int(b)
     return np.float32(a) == np.float32(b) or a == b
+
+
+# ------------------------------------------------------------------ literals
+def generalise_literal(module, func_name, literal, values):
+    """Re-compile `module.func_name` from its *current* source with every
+    occurrence of the integer literal `literal` replaced by a value the
+    solver chooses per path from `values` (the literal itself included):
+    block sizes such as 1000000 make multi-block loops unreachable with
+    small inputs; the loops are exercised with blocks of 1 or 2 instead.
+    If the literal no longer occurs in the function it is left alone."""
+    import ast
+    import inspect
+    import textwrap
+    fn = getattr(module, func_name, None)
+    if fn is None:
+        return False
+    try:
+        src = textwrap.dedent(inspect.getsource(fn))
+    except (OSError, TypeError):
+        return False
+    tree = ast.parse(src)
+    hits = [0]
+
+    class T(ast.NodeTransformer):
+        def visit_Constant(self, node):
+            if type(node.value) is int and node.value == literal:
+                hits[0] += 1
+                return ast.copy_location(ast.Call(
+                    func=ast.Name(id='__symx_literal__', ctx=ast.Load()),
+                    args=[ast.Constant(literal)], keywords=[]), node)
+            return node
+    tree = T().visit(tree)
+    if not hits[0]:
+        return False
+    ast.fix_missing_locations(tree)
+    ns = module.__dict__
+    vals = list(values)
+
+    def chosen(lit):
+        ctx = core.CUR
+        key = f"block_size_for_{lit}"
+        if key not in ctx.notes:          # notes are per path
+            ctx.notes[key] = vals[ctx.choice(key, len(vals))]
+        return ctx.notes[key]
+    ns['__symx_literal__'] = chosen
+    code = compile(tree, inspect.getsourcefile(fn) or '<generalised>',
+                   'exec')
+    scratch = {}
+    exec(code, ns, scratch)
+    new = scratch[func_name]
+    patch(module, func_name, new)
+    return True
+
+
+# ------------------------------------------------------------------ hash seed
+class HashSet:
+    """stand-in for the builtin set inside a repository module: same
+    operations, but the iteration order is chosen by the solver (every
+    order up to 4 elements, insertion order or its reverse beyond that) -
+    i.e. the result of the code is explored under different hash seeds"""
+    counter = [0]
+
+    def __init__(self, it=()):
+        self._items = []
+        for x in it:
+            if x not in self._items:
+                self._items.append(x)
+
+    # --- order-dependent
+    def __iter__(self):
+        HashSet.counter[0] += 1
+        n = len(self._items)
+        tag = f"setorder{HashSet.counter[0]}"
+        if n <= 1:
+            return iter(list(self._items))
+        if n <= 4:
+            p = core.CUR.perm(tag, n)
+            return iter([self._items[i] for i in p])
+        if core.CUR.flag(tag + '.reversed'):
+            return iter(list(reversed(self._items)))
+        return iter(list(self._items))
+
+    def pop(self):
+        for x in self:
+            self._items.remove(x)
+            return x
+        raise KeyError('pop from an empty set')
+
+    # --- order-independent
+    def __len__(self):
+        return len(self._items)
+
+    def __contains__(self, x):
+        return x in self._items
+
+    def __bool__(self):
+        return bool(self._items)
+
+    def add(self, x):
+        if x not in self._items:
+            self._items.append(x)
+
+    def discard(self, x):
+        if x in self._items:
+            self._items.remove(x)
+
+    def remove(self, x):
+        self._items.remove(x)
+
+    def update(self, *others):
+        for o in others:
+            for x in _plain(o):
+                self.add(x)
+
+    def copy(self):
+        return HashSet(self._items)
+
+    def union(self, *others):
+        r = self.copy()
+        r.update(*others)
+        return r
+
+    def intersection(self, *others):
+        r = list(self._items)
+        for o in others:
+            o = _plain(o)
+            r = [x for x in r if x in o]
+        return HashSet(r)
+
+    def difference(self, *others):
+        r = list(self._items)
+        for o in others:
+            o = _plain(o)
+            r = [x for x in r if x not in o]
+        return HashSet(r)
+
+    def issubset(self, o):
+        o = _plain(o)
+        return all(x in o for x in self._items)
+
+    def issuperset(self, o):
+        return all(x in self._items for x in _plain(o))
+
+    __or__ = union
+    __and__ = intersection
+    __sub__ = difference
+
+    def __eq__(self, o):
+        if isinstance(o, (HashSet, set, frozenset)):
+            o = _plain(o)
+            return len(o) == len(self._items) and \
+                all(x in o for x in self._items)
+        return NotImplemented
+
+    def __repr__(self):
+        return f"HashSet({self._items!r})"
+
+
+def _plain(o):
+    return o._items if isinstance(o, HashSet) else list(o)
